@@ -378,10 +378,39 @@ class Walker:
                     continue
                 del st.facts[k]
 
+    def _freeze_dependents(self, st: State, name: str):
+        """`name` is about to be rebound (or forgotten): definitions of other locals that mention it keep meaning the
+        value it had when they were made, so substitute that value now (or forget the definition when it is unknown)."""
+        if not st.defs:
+            return
+        stale = [k for k, v in st.defs.items() if k != name and name in _names_of(v)]
+        if not stale:
+            return
+        import copy
+
+        oldv = st.defs.get(name)
+        for k in stale:
+            if oldv is None or name in _names_of(oldv):
+                del st.defs[k]
+                continue
+
+            class _Fr(ast.NodeTransformer):
+                def visit_Name(self, n, _o=oldv, _t=name):
+                    if n.id == _t and isinstance(n.ctx, ast.Load):
+                        return copy.deepcopy(_o)
+                    return n
+
+            nv = _Fr().visit(copy.deepcopy(st.defs[k]))
+            if sum(1 for _ in ast.walk(nv)) < 300:
+                st.defs[k] = clear_norm_cache(ast.fix_missing_locations(nv))
+            else:
+                del st.defs[k]
+
     def _bind(self, st: State, target, val: AVal, node=None, defexpr=None):
         if isinstance(target, ast.Name):
             self._kill(st, target)
             st.env[target.id] = val
+            self._freeze_dependents(st, target.id)
             if defexpr is None and isinstance(node, (ast.Assign, ast.AnnAssign, ast.NamedExpr)) and getattr(node, "value", None) is not None:
                 defexpr = node.value
             if defexpr is not None and not any(isinstance(n, ast.Name) and n.id == target.id for n in ast.walk(defexpr)):
@@ -528,6 +557,7 @@ class Walker:
             self._kill(st, node)
             if isinstance(node, ast.Name):
                 st.env[node.id] = UNK
+                self._freeze_dependents(st, node.id)
                 st.defs.pop(node.id, None)
 
     def _loop(self, st: State, body, orelse, test_fn, bind_fn):
@@ -717,11 +747,23 @@ class Walker:
                 # `A or B or C` is true and all but one operand are known false (or the dual)
                 want = isinstance(expr.op, ast.Or)
                 open_ops = []
-                for e in expr.values:
+                def known(e):
+                    if isinstance(e, ast.UnaryOp) and isinstance(e.op, ast.Not):
+                        k = known(e.operand)
+                        return None if k is None else (not k)
+                    if isinstance(e, ast.BoolOp):
+                        ks = [known(v) for v in e.values]
+                        if isinstance(e.op, ast.And):
+                            return False if any(k is False for k in ks) else (True if all(k is True for k in ks) else None)
+                        return True if any(k is True for k in ks) else (False if all(k is False for k in ks) else None)
                     cur = self._lookup(e, st)
                     t = truth(cur) if cur is not None else None
                     if t is None and isinstance(e, ast.Constant):
                         t = bool(e.value)
+                    return t
+
+                for e in expr.values:
+                    t = known(e)
                     if t is want:
                         open_ops = None
                         break
@@ -1037,7 +1079,17 @@ class Walker:
 
     def e_JoinedStr(self, node, st):
         parts = [v.value for v in node.values if isinstance(v, ast.FormattedValue)]
-        return self._seq(parts, st, lambda vals, s: [("val", UNK, s)])
+        plain = all(v.conversion == -1 and v.format_spec is None for v in node.values if isinstance(v, ast.FormattedValue))
+
+        def cont(vals, s):
+            if plain and all(v.kind == "const" and isinstance(v.value, (str, int)) and not isinstance(v.value, bool) for v in vals):
+                it = iter(vals)
+                out = ""
+                for v in node.values:
+                    out += str(v.value) if isinstance(v, ast.Constant) else str(next(it).value)
+                return [("val", Const(out), s)]
+            return [("val", UNK, s)]
+        return self._seq(parts, st, cont)
 
     def e_NamedExpr(self, node, st):
         def cont(vals, s):
@@ -1115,6 +1167,13 @@ class Walker:
                     return [("raise", type(exc).__name__, s)]
                 except Exception:
                     pass
+            if isinstance(node.func, ast.Attribute) and node.func.attr in ("group", "groups", "start", "end", "span", "groupdict") and len(recv) == 1 \
+                    and recv[0].kind == "const" and type(recv[0].value).__name__ == "Match" and all(a.kind == "const" for a in args) and not kws:
+                try:
+                    return [("val", Const(getattr(recv[0].value, node.func.attr)(*[a.value for a in args])), s)]
+                except (IndexError, ValueError) as exc:
+                    s.add(Event("raise", node, type(exc).__name__, self.frame, "implicit"))
+                    return [("raise", type(exc).__name__, s)]
             return self._do_call(node, target, args, kws, s)
 
         return self._seq(pre + argnodes + kwnodes, st, cont)
@@ -1138,6 +1197,14 @@ class Walker:
                 fn = getattr(posixpath, name.split(".")[-1])
                 return [("val", Const(fn(*[a.value for a in args])), s)]
             except Exception:
+                pass
+        if name in ("re.search", "re.match", "re.fullmatch") and len(args) == 2 and all(a.kind == "const" for a in args) and not kws \
+                and isinstance(args[0].value, (str, bytes)) and isinstance(args[1].value, type(args[0].value)):
+            import re as _re
+
+            try:
+                return [("val", Const(getattr(_re, name.split(".")[-1])(args[0].value, args[1].value)), s)]
+            except _re.error:
                 pass
         if name in ("typing.cast",) and len(args) == 2:
             return [("val", args[1], s)]
@@ -1232,8 +1299,28 @@ class Walker:
         else:
             callee_concrete = callee.cls
             facts = {k: v for k, v in s.facts.items() if not k.startswith("self.") and "self." not in k}
+        # parameters stand for the caller's argument expressions (when those mention nothing the callee rebinds)
+        pdefs = {}
+        if node is not None and (is_self or callee.cls is None):
+            try:
+                from .facts import expand_ast as _xa
+
+                argnodes = list(node.args)
+                if explicit_self:
+                    argnodes = argnodes[1:]
+                callee_locals = _callee_locals(callee)
+                pairs = list(zip(params, argnodes)) + [(k.arg, k.value) for k in node.keywords if k.arg in params]
+                for p_, a_ in pairs:
+                    if isinstance(a_, ast.Starred):
+                        continue
+                    ea = _xa(a_, self.frame[0], s.defs) if s.defs else a_
+                    free = _names_of(ea) - {"self"}
+                    if not (free & callee_locals) and (is_self or "self" not in _names_of(ea)):
+                        pdefs[p_] = ea
+            except Exception:
+                pdefs = {}
         inner = State(env=env, facts=dict(facts), events=s.events, exc=None, depth=s.depth + 1,
-                      stack=s.stack + (callee,), defs={})
+                      stack=s.stack + (callee,), defs=pdefs)
         saved_frame = self.frame
         self.frame = (callee, callee_concrete)
         try:
@@ -1359,6 +1446,28 @@ def _is_global_written(prog: Program, mod, name: str) -> bool:
                 cache.update(n.names)
         mod._gw = cache
     return name in cache
+
+
+def _callee_locals(func):
+    cached = getattr(func, "_pgv_locals_all", None)
+    if cached is None:
+        cached = set(func.params) | set(func.kwonly)
+        for n in ast.walk(func.node):
+            if isinstance(n, ast.Name) and isinstance(n.ctx, ast.Store):
+                cached.add(n.id)
+        func._pgv_locals_all = cached
+    return cached
+
+
+def _names_of(node):
+    cached = getattr(node, "_pgv_names", None)
+    if cached is None:
+        cached = frozenset(n.id for n in ast.walk(node) if isinstance(n, ast.Name) and isinstance(n.ctx, ast.Load))
+        try:
+            node._pgv_names = cached
+        except Exception:
+            pass
+    return cached
 
 
 NOCONST = object()
